@@ -4,5 +4,5 @@ VARIABLE fl
 Init == fl \in FileLists
 Next == UNCHANGED fl
 Names == [k \in 1..3 |-> "f" \o ToString(k)]
-Laws == ConcatLaw(fl) /\ ContextLaw(fl, Names) /\ (\A c \in ChainVerbs : Composable(c))
+Laws == ConcatLaw(fl) /\ ContextLaw(fl, Names) /\ UseLaw(fl, Names) /\ (\A c \in ChainVerbs : Composable(c))
 =============================================================================
